@@ -146,3 +146,17 @@ def skeleton(p: Poly):
     def atom(a):
         return a if isinstance(a, str) else ("fdiv", skeleton(dict((tuple(m), c) for m, c in a[1])))
     return tuple(sorted((tuple(atom(a) for a in m) for m in p), key=repr))
+
+
+def evaluate(p: Poly, env: Dict[str, int]) -> int:
+    """Value of a normal form at an integer point (exact; floor atoms use Python's floor division)."""
+    total = 0
+    for mono, c in p.items():
+        v = c
+        for a in mono:
+            if isinstance(a, str):
+                v *= env[a]
+            else:
+                v *= evaluate(dict((tuple(m), cc) for m, cc in a[1]), env) // a[2]
+        total += v
+    return total
